@@ -8,8 +8,11 @@ use std::sync::atomic::AtomicBool;
 use std::sync::atomic::AtomicUsize;
 use std::sync::atomic::Ordering;
 
+#[cfg(not(fastrace_verif))]
 use fastant::Anchor;
+#[cfg(not(fastrace_verif))]
 use fastant::Instant;
+#[cfg(not(fastrace_verif))]
 use parking_lot::Mutex;
 
 use crate::collector::Config;
@@ -30,7 +33,18 @@ use crate::local::raw_span::RawSpan;
 use crate::util::CollectToken;
 use crate::util::spsc::Receiver;
 use crate::util::spsc::Sender;
+#[cfg(not(fastrace_verif))]
 use crate::util::spsc::{self};
+#[cfg(fastrace_verif)]
+use crate::verif::Mutex;
+#[cfg(fastrace_verif)]
+use crate::verif::clock::Anchor;
+#[cfg(fastrace_verif)]
+use crate::verif::clock::Instant;
+#[cfg(fastrace_verif)]
+use crate::verif::spsc::{self};
+#[cfg(fastrace_verif)]
+use crate::verif::std;
 
 static NEXT_COLLECT_ID: AtomicUsize = AtomicUsize::new(0);
 static GLOBAL_COLLECTOR: Mutex<Option<GlobalCollector>> = Mutex::new(None);
@@ -48,16 +62,22 @@ thread_local! {
 }
 
 fn register_receiver(rx: Receiver<CollectCommand>) {
+    #[cfg(fastrace_verif)]
+    crate::verif::point(crate::verif::P_REGISTER, 0, 0);
     SPSC_RXS.lock().push(rx);
 }
 
 fn send_command(cmd: CollectCommand) {
+    #[cfg(fastrace_verif)]
+    verif_impl::log_cmd(&cmd, false);
     COMMAND_SENDER
         .try_with(|sender| unsafe { (*sender.get()).send(cmd).ok() })
         .ok();
 }
 
 fn force_send_command(cmd: CollectCommand) {
+    #[cfg(fastrace_verif)]
+    verif_impl::log_cmd(&cmd, true);
     COMMAND_SENDER
         .try_with(|sender| unsafe { (*sender.get()).force_send(cmd) })
         .ok();
@@ -263,8 +283,19 @@ impl GlobalCollector {
         let submit_spans = &mut self.submit_spans;
         let stale_spans = &mut self.stale_spans;
 
+        #[cfg(fastrace_verif)]
+        crate::verif::point(crate::verif::P_CYCLE_BEGIN, 0, 0);
+
+        #[cfg(fastrace_verif)]
+        let mut verif_rx_index = 0u64;
+
         {
             SPSC_RXS.lock().retain_mut(|rx| {
+                #[cfg(fastrace_verif)]
+                {
+                    crate::verif::point(crate::verif::P_DRAIN_RX, verif_rx_index, 0);
+                    verif_rx_index += 1;
+                }
                 loop {
                     match rx.try_recv() {
                         Ok(Some(CollectCommand::StartCollect(cmd))) => start_collects.push(cmd),
@@ -277,6 +308,8 @@ impl GlobalCollector {
                         }
                         Err(_) => {
                             // Channel closed. Remove it from the channel list.
+                            #[cfg(fastrace_verif)]
+                            crate::verif::point(crate::verif::P_RX_CLOSED, verif_rx_index - 1, 0);
                             return false;
                         }
                     }
@@ -384,6 +417,8 @@ impl GlobalCollector {
             );
         }
 
+        #[cfg(fastrace_verif)]
+        crate::verif::point(crate::verif::P_CYCLE_END, 0, 0);
         self.reporter.as_mut().unwrap().report(committed_records);
     }
 }
@@ -631,5 +666,73 @@ fn mount_danglings(records: &mut [SpanRecord], danglings: &mut HashMap<SpanId, V
                 }
             }
         }
+    }
+}
+
+#[cfg(fastrace_verif)]
+pub(crate) mod verif_impl {
+    use super::*;
+
+    #[derive(Debug, Clone, Copy, Default, PartialEq, Eq)]
+    pub struct CollectorStats {
+        pub active_collectors: usize,
+        pub buffered_span_sets: usize,
+        pub danglings: usize,
+        pub receivers: usize,
+    }
+
+    pub(crate) fn log_cmd(cmd: &CollectCommand, force: bool) {
+        let (kind, id) = match cmd {
+            CollectCommand::StartCollect(c) => (0, c.collect_id),
+            CollectCommand::DropCollect(c) => (1, c.collect_id),
+            CollectCommand::CommitCollect(c) => (2, c.collect_id),
+            CollectCommand::SubmitSpans(c) => (
+                3 | ((c.collect_token.len() as u64) << 8),
+                c.collect_token
+                    .first()
+                    .map(|i| i.collect_id)
+                    .unwrap_or(usize::MAX),
+            ),
+        };
+        if COMMAND_SENDER.try_with(|_| ()).is_err() {
+            // The thread-local sender is already destroyed: the command will be dismissed.
+            crate::verif::point(crate::verif::P_TLS_GONE, kind, id as u64);
+            return;
+        }
+        crate::verif::point(
+            crate::verif::P_SEND_CMD,
+            kind | ((force as u64) << 7),
+            id as u64,
+        );
+    }
+
+    /// Runs one collector cycle on the calling thread.
+    pub fn run_collector_cycle() {
+        if let Some(global_collector) = GLOBAL_COLLECTOR.lock().as_mut() {
+            global_collector.handle_commands();
+        }
+    }
+
+    pub fn collector_stats() -> CollectorStats {
+        let receivers = SPSC_RXS.lock().len();
+        let guard = GLOBAL_COLLECTOR.lock();
+        let mut stats = CollectorStats { receivers, ..Default::default() };
+        if let Some(gc) = guard.as_ref() {
+            stats.active_collectors = gc.active_collectors.len();
+            for ac in gc.active_collectors.values() {
+                stats.buffered_span_sets += ac.span_collections.len();
+                stats.danglings += ac.danglings.values().map(|v| v.len()).sum::<usize>();
+            }
+        }
+        stats
+    }
+
+    /// Forgets the reporter, every registered receiver and every per-trace entry, so that the next
+    /// simulated run starts from a fresh process state.
+    pub fn reset() {
+        *GLOBAL_COLLECTOR.lock() = None;
+        SPSC_RXS.lock().clear();
+        REPORTER_READY.store(false, Ordering::SeqCst);
+        NEXT_COLLECT_ID.store(0, Ordering::SeqCst);
     }
 }
